@@ -147,13 +147,16 @@ class Extract:
                 self.alias.setdefault(n.args[0].id, recv_name(n.func.value).replace('self.', ''))
 
     def walk(self, stmts, guards, ctx):
-        for s in stmts:
+        for si, s in enumerate(stmts):
             if isinstance(s, ast.Assign) and len(s.targets) == 1:
                 self.assign[recv_name(s.targets[0])] = s.value
                 self.scan_calls(s, guards, ctx)
             elif isinstance(s, (ast.Expr, ast.AugAssign, ast.Return)):
                 self.scan_calls(s, guards, ctx)
             elif isinstance(s, ast.If):
+                if isinstance(s.test, ast.UnaryOp) and isinstance(s.test.op, ast.Not) and s.orelse and version_cond(s.test) is None and self.presence(s.test) is None:
+                    # `if not X: A else: B` is read as `if X: B else: A`
+                    s = ast.copy_location(ast.If(test=s.test.operand, body=s.orelse, orelse=s.body), s)
                 vc = version_cond(s.test)
                 if vc:
                     if is_raise_block(s.body) and not guards and ctx is None and not self.events:
@@ -161,7 +164,7 @@ class Extract:
                         self.walk(s.orelse, guards + [(vc, False)], ctx)
                         # statements after the if only run when the guard is false
                         continue_guards = guards + [(vc, False)]
-                        rest = stmts[stmts.index(s) + 1:]
+                        rest = stmts[si + 1:]
                         self.walk(rest, continue_guards, ctx)
                         return
                     self.walk(s.body, guards + [(vc, True)], ctx)
